@@ -7,6 +7,7 @@ import Proofs.C11OpLog
 import Proofs.C11Depth
 import Proofs.C11Special
 import Proofs.C11Reuse
+import Proofs.C11Shape
 /-!
 # C11 — input bookkeeping: NR, FNR, FILENAME, operands, getline, ranges, next, exit
 
@@ -429,6 +430,64 @@ theorem every_execution (fuel : Nat) (p : Prog) (s : St) (es : List Exec) (i : N
   rw [hops, hfs, hstdin] at h
   exact h
 
+/-! ## program shape (which blocks and rules the program has) and reading resumed after the main loop was left -/
+
+/-- **idle_rules_invisible.** Pattern-action rules that do nothing for any record — `{ }`, or a pattern that is never true,
+whatever its action — change nothing: for every BEGIN, END, world and fuel the run of the program with such rules IS the run of
+the program without any rule (same trace, same NR / FNR / FILENAME / `$0` / NF in END, same exit status, same input position). So
+what END observes does not depend on whether any rule looked at the records; an END-only program is not a special case. -/
+theorem idle_rules_invisible (fuel : Nat) (b e : List Op) (rules : List Rule) (s : St) (hi : ∀ r ∈ rules, r.Idle) :
+    run fuel ⟨b, rules, some e⟩ s = run fuel ⟨b, [], some e⟩ s :=
+  run_idle fuel b e rules s hi
+
+/-- **end_sees_last_record_as_read.** For every program whose rules are all idle (in particular: no rule at all), every world
+and fuel: when the main loop has read the input to its end, either it took no record (the look for a first one found the end:
+`$0` / NF are what BEGIN left), or END's `$0` is the LAST record taken and its NF is that record split with the FS that was in
+force right after it was taken — the `var=value` operands crossed on the way to the end of the input (those after the last file)
+are applied, but do not re-split it. -/
+theorem end_sees_last_record_as_read (fuel : Nat) (rules : List Rule) (s s2 : St) (hi : ∀ r ∈ rules, r.Idle)
+    (h : mainLoop fuel rules (rules.map fun _ => false) s = (.normal, s2)) :
+    nextLine s = (.eof, s2) ∨
+    ∃ s' s1 r, nextLine s' = (.got r, s1) ∧ nextLine (s1.beginRecord r) = (.eof, s2) ∧ s2.line = r ∧ s2.nf = nfWith s1.fsep r :=
+  idle_rules_last_record fuel rules s s2 hi h
+
+/-- **reading_resumes_after_exit.** For every program, world and fuel: when a rule executes `exit` (at any record of any file, at
+any depth of calls), the records taken so far followed by what the main input still holds are the whole declarative stream of the
+operand list — `exit` drops nothing and closes nothing; and from that state (END runs on exactly it: `exit_runs_end`) an
+un-redirected `getline` / `getline var` takes the head of what is pending, under its FILENAME and with its FNR, returns 0 only
+when nothing is pending, and a missing file (-1) loses no record. (While the program has not edited ARGV / ARGC nor executed
+nextfile.) -/
+theorem reading_resumes_after_exit (fuel : Nat) (p : Prog) (s s1 s2 : St) (sigB : Sig) (h0 : Fresh s)
+    (hb : execOps p.begin s = (sigB, s1))
+    (hm : mainLoop fuel p.rules (p.rules.map fun _ => false) s1 = (.exit, s2)) (he : s2.edited = false) :
+    (s2.takes.map TakeInfo.item).reverse ++ pending s2 = streamSpec s.fs (operandsFrom s.argv 1 (s.argc - 1)) false s.stdin ∧
+    (match (nextLine s2).1 with
+     | .got r => pending s2 = ((nextLine s2).2.filename, (nextLine s2).2.fnr, r) :: pending (nextLine s2).2
+     | .eof => pending s2 = []
+     | .err => pending s2 = pending (nextLine s2).2) := by
+  obtain ⟨hidx, hcur, hhad, htakes, -, hilog⟩ := h0
+  have hinv : StreamInv (streamSpec s.fs (operandsFrom s.argv 1 (s.argc - 1)) false s.stdin) s := by
+    intro _
+    simp [pending, remaining, hidx, hcur, hhad, htakes]
+  have h1 := execOps_preserves (streamInv_stable _).toStableOps p.begin s hinv
+  rw [hb] at h1
+  exact ⟨pending_after_exit _ fuel p.rules _ s1 s2 h1 hm he, next_take_is_head_of_pending s2⟩
+
+/-- … and when BEGIN itself executes `exit` — after any number of getlines —, the main loop is skipped
+(`exit_in_begin_runs_end`) and END's getlines continue where BEGIN's stopped -/
+theorem reading_resumes_after_exit_in_begin (p : Prog) (s s1 : St) (h0 : Fresh s)
+    (hb : execOps p.begin s = (.exit, s1)) (he : s1.edited = false) :
+    (s1.takes.map TakeInfo.item).reverse ++ pending s1 = streamSpec s.fs (operandsFrom s.argv 1 (s.argc - 1)) false s.stdin ∧
+    (match (nextLine s1).1 with
+     | .got r => pending s1 = ((nextLine s1).2.filename, (nextLine s1).2.fnr, r) :: pending (nextLine s1).2
+     | .eof => pending s1 = []
+     | .err => pending s1 = pending (nextLine s1).2) := by
+  obtain ⟨hidx, hcur, hhad, htakes, -, hilog⟩ := h0
+  have hinv : StreamInv (streamSpec s.fs (operandsFrom s.argv 1 (s.argc - 1)) false s.stdin) s := by
+    intro _
+    simp [pending, remaining, hidx, hcur, hhad, htakes]
+  exact ⟨pending_after_exit_in_begin _ p.begin s s1 hinv hb he, next_take_is_head_of_pending s1⟩
+
 /-! ## non-vacuity -/
 
 private def w0 : St :=
@@ -512,6 +571,58 @@ example : ((run 100 ⟨[], [⟨.always, some [.emit 0]⟩], some [.emit 9]⟩ w2
       | .emit tag nr _ _ _ nf _ _ => (tag, nr, nf)
       | _ => (0, 0, 0)) = [(0, 1, 1), (0, 2, 2), (9, 2, 2)] := by
   decide +kernel
+
+/-- idle rules exist: `{ }` and a never-true pattern with an action -/
+example : ∀ r ∈ [(⟨.always, some []⟩ : Rule), ⟨.pred (fun _ => .val false), some [.emit 1, .next]⟩], r.Idle := by
+  intro r hr
+  simp only [List.mem_cons, List.mem_nil_iff, or_false] at hr
+  rcases hr with rfl | rfl
+  · exact Or.inl ⟨rfl, rfl⟩
+  · exact Or.inr ⟨_, rfl, fun _ => rfl⟩
+
+/-- the END-only program over `w4` (`k FS=:`, k holds the one record `y:z`, read under the default FS): END sees NR 1,
+`$0` = `y:z` and NF 1 — the record as it was read, not re-split by the trailing `FS=:` although that operand HAS been applied
+when END runs (`fsep` is `:`; re-splitting would give NF 2) — and the same program with two idle rules is the same run -/
+private def w4 : St :=
+  { fs := [([107], [[121, 58, 122]])], stdin := [], argv := [[], [107], [70, 83, 61, 58]], argc := 3, varNames := [] }
+
+example : ((run 100 ⟨[], [], some [.emit 9]⟩ w4).2.out.reverse.map fun
+      | .emit tag nr _ _ line nf _ _ => (tag, nr, line, nf)
+      | _ => (0, 0, [], 0)) = [(9, 1, [121, 58, 122], 1)] ∧
+    (run 100 ⟨[], [], some [.emit 9]⟩ w4).2.fsep = [58] ∧
+    run 100 ⟨[], [⟨.always, some []⟩, ⟨.pred (fun _ => .val false), some [.emit 1]⟩], some [.emit 9]⟩ w4 =
+      run 100 ⟨[], [], some [.emit 9]⟩ w4 := by
+  refine ⟨by decide +kernel, by decide +kernel, ?_⟩
+  apply idle_rules_invisible
+  intro r hr
+  simp only [List.mem_cons, List.mem_nil_iff, or_false] at hr
+  rcases hr with rfl | rfl
+  · exact Or.inl ⟨rfl, rfl⟩
+  · exact Or.inr ⟨_, rfl, fun _ => rfl⟩
+
+/-- the hypotheses of `end_sees_last_record_as_read` are satisfiable, and its second alternative is the one that holds on `w4` -/
+example : (mainLoop 100 [] [] w4).1 = .normal ∧ (mainLoop 100 [] [] w4).2.line = [121, 58, 122] ∧ (mainLoop 100 [] [] w4).2.nf = 1 ∧
+    nfWith (mainLoop 100 [] [] w4).2.fsep (mainLoop 100 [] [] w4).2.line = 2 := by decide +kernel
+
+/-- `exit` at the first record of `w0` (k1 = `p`, `q`; `v0=7`; k2 = `a`, `b`, `c`); END reads on: `getline` gets `q` as record 2
+of k1 (FNR 2), `getline var` gets `a` as record 1 of k2 (NR 3, FNR 1, `v0=7` crossed and then overwritten by the record) -/
+example : (mainLoop 100 [⟨.pred (fun v => .val (v.nr == 1)), some [.call [.exit (some 2)]]⟩] [false] w0).1 = .exit := by decide +kernel
+
+example : ((run 100 ⟨[], [⟨.pred (fun v => .val (v.nr == 1)), some [.call [.exit (some 2)]]⟩],
+      some [.emit 9, .getline, .emit 9, .getlineVar 0, .emit 9]⟩ w0).2.out.reverse.filterMap fun
+      | .emit _ nr fnr fn line _ vars _ => some ((nr, fnr, fn), line, vars)
+      | _ => none) =
+    [((1, 1, [107, 49]), [112], []), ((2, 2, [107, 49]), [113], []), ((3, 1, [107, 50]), [113], [[97]])] ∧
+    (run 100 ⟨[], [⟨.pred (fun v => .val (v.nr == 1)), some [.call [.exit (some 2)]]⟩],
+      some [.emit 9, .getline, .emit 9, .getlineVar 0, .emit 9]⟩ w0).2.status = 2 :=
+  ⟨by decide +kernel, by decide +kernel⟩
+
+/-- `exit` in BEGIN after one getline; END's getline continues with the second record of k1 -/
+example : (execOps [.getline, .exit none] w0).1 = .exit ∧
+    ((run 100 ⟨[.getline, .exit none], [⟨.always, some [.emit 0]⟩], some [.getline, .emit 9]⟩ w0).2.out.reverse.filterMap fun
+      | .emit tag nr fnr fn line _ _ _ => some (tag, nr, fnr, fn, line)
+      | _ => none) = ([(9, 2, 2, [107, 49], [113])] : List (Nat × Nat × Nat × Bytes × Bytes)) :=
+  ⟨by decide +kernel, by decide +kernel⟩
 
 /-- a range that opens and closes on the same record, and one that stays open -/
 example : rangeRun false [(true, true), (false, false), (true, false), (false, false), (false, true), (false, false)] =
